@@ -17,8 +17,12 @@ struct C20 : Harness {
         if (kv.count("tools")) tools = kv.at("tools");
         if (kv.count("bigfile")) bigfile = kv.at("bigfile") == "1";
         char t[] = "/tmp/skv-c20-XXXXXX";
+        // scratch files (up to 8 GiB for the big-input cases) live in the driver's per-run work directory, which the driver
+        // removes whatever happens to this process (a shard that is killed on its time limit cannot clean up after itself)
         const char *base = getenv("SKV_TMP");
-        std::string templ = std::string(base ? base : "/tmp") + "/c20-XXXXXX";
+        std::string dir = base ? base : "/tmp";
+        if (kv.count("out")) { std::string o = kv.at("out"); size_t sl = o.rfind('/'); if (sl != std::string::npos && sl > 0) dir = o.substr(0, sl); }
+        std::string templ = dir + "/c20-XXXXXX";
         std::vector<char> buf(templ.begin(), templ.end()); buf.push_back(0);
         if (mkdtemp(buf.data())) tmp = buf.data();
         (void)t;
